@@ -33,8 +33,9 @@ type chainCase struct {
 	Hooked  *bool     `json:"hooked"`
 	CheckW  bool      `json:"checkw"`
 	N       int       `json:"n"`
-	G       int       `json:"g"` // kind "redispatch": number of global middleware (chain = G ++ redispatcher ++ G ++ inner)
-	B       int       `json:"b"` // position of the redispatcher
+	Length  *int      `json:"length"` // MC_Writer lines: bytes accepted by the underlying writer
+	G       int       `json:"g"`      // kind "redispatch": number of global middleware (chain = G ++ redispatcher ++ G ++ inner)
+	B       int       `json:"b"`      // position of the redispatcher
 }
 
 // recWriter is the underlying http.ResponseWriter: it records every call and can reply with short writes / errors.
@@ -68,9 +69,10 @@ func (w *recWriter) Write(b []byte) (int, error) {
 func (w *recWriter) Flush() { w.calls = append(w.calls, []any{"FL"}) }
 
 type chainRun struct {
-	log    [][]any
-	rw     *recWriter
-	panicV any
+	outLen, outStatus int // Context.Length() / StatusCode() seen by the "out" op of handler 1 (the outermost frame)
+	log               [][]any
+	rw                *recWriter
+	panicV            any
 }
 
 type panicToken struct{ id int }
@@ -97,6 +99,9 @@ func mkHandler(run **chainRun, h int, script [][]any) rux.HandlerFunc {
 				r.log = append(r.log, []any{"in", h, c.IsAborted()})
 			case "out":
 				r.log = append(r.log, []any{"out", h, c.IsAborted()})
+				if h == 1 {
+					r.outLen, r.outStatus = c.Length(), c.StatusCode()
+				}
 			case "next":
 				c.Next()
 			case "catchnext":
@@ -460,6 +465,11 @@ func chainRunOnce(s *Summary, c *chainCase, sp chainSplit) {
 			s.mismatch(desc("panic-escape", fmt.Sprintf("panic escaped ServeHTTP = %v, spec %v", esc, *c.Escaped)), c)
 			return
 		}
+	}
+	if c.CheckW && c.Length != nil && *c.Length > 0 && run.outLen != *c.Length {
+		// Length() equals the number of bytes accepted (all writer ops precede the out of handler 1 in these cases)
+		s.mismatch(desc("writer", fmt.Sprintf("Context.Length() = %d after the writes %v, the underlying writer accepted %d bytes", run.outLen, run.rw.calls, *c.Length)), c)
+		return
 	}
 	if c.CheckW && c.Kind != "na-default" {
 		wantU := normLog(c.Under)
